@@ -57,6 +57,15 @@ Theorem C20_lock_discipline_no_race :
     forall pre c, steps (init ts) pre c -> ~ racy c.
 Proof. intros Loc Val Out pol. exact (discipline_no_race Loc Val Out pol). Qed.
 
+(** (a4) Critical sections that are not nested (the library's `Lock(); ...; Unlock()`) never
+    deadlock: every execution prefix extends to a complete interleaving, so the statements about
+    "every interleaving" are not vacuously true. *)
+Theorem C20_bracketed_no_deadlock :
+  forall (Loc Val Out : Type) (ts : list (thread Loc Val Out)),
+    (forall t, In t ts -> bracketed Loc Val Out [] t) ->
+    forall pre c, steps (init ts) pre c -> exists post, interleaving ts (pre ++ post).
+Proof. intros Loc Val Out. exact (bracketed_no_deadlock Loc Val Out). Qed.
+
 (** (b) THE OBLIGATION, re-checked against the regenerated inventory on every run: every
     package-level variable of the library is immutable or synchronised (by the translator's rules,
     or by a review that matches its current evidence). *)
@@ -94,6 +103,23 @@ Theorem C20_premise_needed :
       (forall t, In t ts -> forall a, In (Act a) t -> respects_obs gloc unit unit (policy rs gs lock_of) a) /\
       exists pre c, steps (init ts) pre c /\ racy c.
 Proof. exact unrestricted_global_races. Qed.
+
+(** The reviewed list cannot whitewash: a variable the translator saw written outside a critical
+    section is never benign, and an unclassified variable is benign only through a review that
+    repeats its current evidence text and carries a justification. *)
+Theorem C20_review_cannot_whitewash :
+  forall rs g,
+    (g_class g = UnsyncMutable -> benign rs g = false) /\
+    (g_class g = Unclassified -> benign rs g = true ->
+       exists r, In r rs /\ (r_as r = Immutable \/ r_as r = Synchronised) /\
+                 r_pkg r = g_pkg g /\ r_name r = g_name g /\ r_evidence r = g_evidence g /\
+                 r_why r <> EmptyString).
+Proof.
+  intros rs g. split.
+  - apply unsync_never_benign.
+  - intros Hc Hb. destruct (unclassified_needs_matching_review rs g Hc Hb) as (r & Hin & Hm & Has).
+    exists r. split; auto. split; auto. apply matching_review_pins_evidence. exact Hm.
+Qed.
 
 (** Non-vacuity 1: the lost update.  Two threads increment location 0 through private temporaries
     10 and 11; one interleaving ends with 1, the sequential run with 2, and it contains a race. *)
@@ -151,9 +177,11 @@ Definition demo : list (thread gloc nat nat) :=
 
 Example C20_demo_hypotheses :
   forallb (benign []) demo_inventory = true /\
+  (forall t, In t demo -> bracketed gloc nat nat [] t) /\
   program_disciplined gloc nat nat (policy [] demo_inventory (fun _ => 7)) demo.
 Proof.
-  split; [reflexivity|].
+  split; [reflexivity|]. split.
+  { intros t [<- | [<- | []]]; simpl; auto. }
   intros [|[|i]] t H; simpl in H; try (destruct i; discriminate); inversion H; subst; clear H;
     simpl; unfold ok_read, ok_write; simpl; intuition (subst; simpl; auto; try discriminate).
 Qed.
@@ -162,6 +190,8 @@ Print Assumptions C20_disjoint_no_race_seq_equiv.
 Print Assumptions C20_shared_write_races.
 Print Assumptions C20_shared_write_races_complete.
 Print Assumptions C20_lock_discipline_no_race.
+Print Assumptions C20_bracketed_no_deadlock.
 Print Assumptions C20_no_unsync_shared_state.
 Print Assumptions C20_main.
 Print Assumptions C20_premise_needed.
+Print Assumptions C20_review_cannot_whitewash.
